@@ -24,7 +24,7 @@ func init() {
 	core.Register(&core.Property{
 		ID:         "C06",
 		Exhaustive: true,
-		Rule:       "exhaustive: {and, or, xor, implies} x every ordered pair of operand forms, a form being value in {true,false,empty,non-Boolean singleton,multi-item} x source in {literal, FHIR boolean element path, computed, %env (System and FHIR element), function result}; not() x forms; the singleton rule through iif/where/exists/all criteria and EvaluateAsBool; De Morgan and implies laws as paired programs; plus operand forms taken from generated resources of all 146 R4 types (boolean elements at any depth incl. choices and extension values, non-Boolean singletons, multi-item paths, absent elements) pairwise under every operator, not() and iif. Expected values from the N1 truth tables. distinct_nontrivial = distinct (operator, left form, right form) programs whose expected value is not determined by a literal-only pair",
+		Rule:       "exhaustive: {and, or, xor, implies} x every ordered pair of operand forms, a form being value in {true,false,empty,non-Boolean singleton,multi-item} x source in {literal, FHIR boolean element path, computed, %env (System and FHIR element), function result}; not() x forms; the singleton rule through iif/where/exists/all criteria and EvaluateAsBool; De Morgan and implies laws as paired programs; plus operand forms taken from generated resources of all 146 R4 types (boolean elements at any depth incl. choices and extension values, non-Boolean singletons, multi-item paths, absent elements) pairwise under every operator, not() and iif. Expected values from the N1 truth tables. three-operand chains against the precedence table, nested criteria in both orders, all 64 three-item sequences of criterion outcomes; distinct_nontrivial = distinct (operator, left form, right form) programs whose expected value is not determined by a literal-only pair",
 		Assumptions: []string{"multi-item literal operands do not exist in the supported grammar (`|` unsupported): supplied through %env, element paths and functions",
 			"resource-rooted operand forms are not used inside where/exists/all criteria (the input there is the item, not the resource)"},
 		Run:    runC06,
